@@ -7,7 +7,7 @@ META = {"level": "proof",
 
 
 def bounded(tier, seed, known):
-    n = 250 if tier == "quick" else 5000
+    n = 800 if tier == "quick" else 8000
     s, v = standin.module_standin("C16", "oracles.misc_oracles", ["C16", seed, n],
                                   "lock-step comparison of ir.modules / node sets / symbolic_expressions with built-in "
                                   "list / set / dict over the full MutableSequence / MutableSet / MutableMapping surface "
